@@ -1365,6 +1365,113 @@ class Swp:
         return f"(if same = true then {alias} else {dist})"
 
 
+
+
+class Swp2:
+    """`swap(Variant& other)` written on the representations: loads / stores of `data` and `_data` of the two objects, tests
+    `data == &_data`, bool / Data / Data* locals, if/else.  A `data` pointer that moves to the other object must be the
+    sentinel or a heap block (`Raw.xptr`: a pointer to the source's own `_data` would dangle: fault)."""
+
+    def __init__(self, fn, param):
+        self.fn, self.param, self.n = fn, param, 0
+
+    def refuse(self, msg):
+        raise Refuse(f"{self.fn}: {msg}")
+
+    def fresh(self, b):
+        self.n += 1
+        return f"{b}{self.n}"
+
+    def objreg(self, e, regs):
+        """('this'|'other' register, field) of `data`, `_data`, `other.data`, `other._data`"""
+        e = strip(e)
+        if e[0] == "id" and e[1] in ("data", "_data"):
+            return regs["this"], e[1]
+        if e[0] == "mem" and not e[3] and strip(e[1]) == ("id", self.param) and e[2] in ("data", "_data"):
+            return regs["other"], e[2]
+        return None
+
+    def boolex(self, e, regs, loc):
+        e = strip(e)
+        if e[0] == "id" and loc.get(e[1], ("",))[0] == "bool":
+            return loc[e[1]][1]
+        if e[0] == "not":
+            return f"(!{self.boolex(e[1], regs, loc)})"
+        if e[0] == "bin" and e[1] in ("&&", "||"):
+            return f"({self.boolex(e[2], regs, loc)} {e[1]} {self.boolex(e[3], regs, loc)})"
+        if e[0] == "bin" and e[1] in ("==", "!="):
+            for a, b in ((strip(e[2]), strip(e[3])), (strip(e[3]), strip(e[2]))):
+                oa = self.objreg(a, regs)
+                if oa and oa[1] == "data" and b[0] == "addr":
+                    ob = self.objreg(b[1], regs)
+                    if ob and ob[1] == "_data" and ob[0] == oa[0]:
+                        t = f"(Raw.isOwn {oa[0]})"
+                        return t if e[1] == "==" else f"(!{t})"
+        self.refuse(f"condition {e!r} is outside the translated subset")
+
+    def body(self, sts, regs, loc, result):
+        if not sts:
+            return result
+        st, rest = sts[0], sts[1:]
+        k = lambda l=loc: self.body(rest, regs, l, result)
+        if st[0] == "block":
+            return self.body(st[1] + rest, regs, loc, result)
+        if st[0] == "if":
+            c = self.boolex(st[1], regs, loc)
+            return (f"(if {c} = true then {self.body([st[2]] + rest, regs, loc, result)} "
+                    f"else {self.body([st[3]] + rest, regs, loc, result)})")
+        if st[0] == "decl":
+            ty, name, e = st[1], st[2], strip(st[3])
+            if ty[1] == "bool" and ty[2] == 0:
+                v = self.fresh("b")
+                return f"(let {v} : Bool := {self.boolex(e, regs, loc)};\n {k(dict(loc, **{name: ('bool', v)}))})"
+            o = self.objreg(e, regs)
+            if ty[1] == "Data" and ty[2] == 0 and not ty[3] and o and o[1] == "_data":
+                v = self.fresh("d")
+                return f"(let {v} : Raw.Desc := {o[0]}.own;\n {k(dict(loc, **{name: ('desc', v)}))})"
+            if ty[1] == "Data" and ty[2] == 1 and o and o[1] == "data":
+                v = self.fresh("p")
+                return (f"(match Raw.xptr {o[0]}.data with\n | none => none\n | some {v} => "
+                        f"{k(dict(loc, **{name: ('ptr', v)}))})")
+            self.refuse(f"declaration of `{name}`")
+        if st[0] == "expr" and strip(st[1])[0] == "assign":
+            e = strip(st[1])
+            l, r = self.objreg(e[1], regs), strip(e[2])
+            if l is None:
+                self.refuse("assignment to something else than `data` / `_data` of the two objects")
+            reg, fld = l
+            if fld == "_data":
+                ro = self.objreg(r, regs)
+                if ro and ro[1] == "_data":
+                    val = f"{ro[0]}.own"
+                elif r[0] == "id" and loc.get(r[1], ("",))[0] == "desc":
+                    val = loc[r[1]][1]
+                else:
+                    self.refuse("`_data` assigned something else than a descriptor")
+                return f"(let {reg} : Raw.Obj := {{ {reg} with own := {val} }};\n {k()})"
+            # data = …
+            if r[0] == "addr":
+                ro = self.objreg(r[1], regs)
+                if ro and ro[1] == "_data" and ro[0] == reg:
+                    return f"(let {reg} : Raw.Obj := {{ {reg} with data := Raw.DPtr.own }};\n {k()})"
+                self.refuse("`data` set to the address of the other object's `_data`")
+            ro = self.objreg(r, regs)
+            if ro and ro[1] == "data":
+                v = self.fresh("p")
+                return (f"(match Raw.xptr {ro[0]}.data with\n | none => none\n | some {v} => "
+                        f"(let {reg} : Raw.Obj := {{ {reg} with data := {v} }};\n {k()}))")
+            if r[0] == "id" and loc.get(r[1], ("",))[0] == "ptr":
+                return f"(let {reg} : Raw.Obj := {{ {reg} with data := {loc[r[1]][1]} }};\n {k()})"
+            self.refuse("assignment to `data`")
+        self.refuse(f"statement {st!r} is outside the translated subset")
+
+    def run(self, body):
+        sts = parse_body(body, self.fn)
+        alias = self.body(sts, {"this": "this", "other": "this"}, {}, "some (s, this, this)")
+        dist = self.body(sts, {"this": "this", "other": "other"}, {}, "some (s, this, other)")
+        return f"(if same = true then {alias} else {dist})"
+
+
 # ---- driver ------------------------------------------------------------------------------------------------------------
 def enum_of(src):
     m = re.search(r"enum\s+Type\s*\{([^}]*)\}", src)
@@ -1444,8 +1551,16 @@ def generate(repo):
     m = re.search(r"void\s+swap\s*\(\s*Variant\s*&\s*(\w+)\s*\)", src)
     if not m:
         raise Refuse("swap(Variant&) not found")
+    swap_body = extract(src, "swap(Variant&)", r"void\s+swap\s*\(\s*Variant\s*&\s*\w+\s*\)")
+    try:
+        swap_lean = Swp("swap(Variant&)", m.group(1)).run(swap_body)
+    except Refuse as r1:
+        try:
+            swap_lean = Swp2("swap(Variant&)", m.group(1)).run(swap_body)
+        except Refuse as r2:
+            raise Refuse(f"{r1}; as an exchange of representations: {r2}")
     rep.append(("swap", "(dtor : Heap → Cell → Option Heap) (s : Heap) (raw this other : Raw.Obj) (same : Bool) : Option (Heap × Raw.Obj × Raw.Obj)",
-                Swp("swap(Variant&)", m.group(1)).run(extract(src, "swap(Variant&)", r"void\s+swap\s*\(\s*Variant\s*&\s*\w+\s*\)"))))
+                swap_lean))
     # the static null descriptor: `NullData() { type = nullType; ref = 0; }` and its definition in src/Variant.cpp
     nd = parse_body(extract(src, "NullData()", r"NullData\s*\(\s*\)"), "NullData()")
     consts = {}
